@@ -14,7 +14,8 @@ RULE = ('result sets from real queries (default and strict) on scratch databases
         'file. CSV: text = Lean writeCsv of the rows built from the attributes of the real result objects, and it parses back (Lean reader, cross-checked '
         'with csv.reader). JSON: valid JSON whose label / reported taxon / next taxon / closest genomes equal the objects\' attributes. Archive: read back by '
         'the real reader against the same database, equal to the original under == and field by field (distances as float32 bit patterns, warnings, error, '
-        'parameters). Non-trivial = distinct result set with >= 2 items and at least one awkward character in an exported field.')
+        'parameters incl. chunksize None / 1 / 7, naive and timezone-aware timestamps with and without microseconds, extra metadata). CSV / JSON are also written to a '
+        'path (str, Path) and the file read as UTF-8 must carry the same rows / document; other exporter objects with other options are created and used in between. Non-trivial = distinct result set with >= 2 items and at least one awkward character in an exported field.')
 TRUSTED = ['harness/props/c11.py + Driver/C11.lean', 'Python json parser; str() of floats in CSV cells']
 ASSUMPTIONS = []
 
@@ -94,11 +95,25 @@ def check(ctx, case):
 				inputs.append(QueryInput(label, SequenceFile(f'/nonexistent/{i}.fa', 'fasta', 'auto')) if rng.random() < 0.5 else QueryInput(label))
 			if case.get('bare_cr'):
 				sigs[0] = calc_signature(kspec, bases[0])
-			res = query(db, sigs, QueryParams(classify_strict=case.get('strict', False), report_closest=rng.choice([1, 3, 10])), inputs=inputs)
+			res = query(db, sigs, QueryParams(classify_strict=case.get('strict', False), report_closest=rng.choice([1, 3, 10]), chunksize=case.get('chunksize', 1000)), inputs=inputs)
+			if case.get('tz') is not None:
+				# a timezone-aware / fractional / whole-second timestamp and caller-supplied extra metadata are part of the results too
+				import attr
+				from datetime import datetime, timezone, timedelta
+				tzs = {'utc': timezone.utc, '+0530': timezone(timedelta(hours=5, minutes=30)), '-0800': timezone(timedelta(hours=-8)), 'naive': None}
+				res = attr.evolve(res, timestamp=datetime(2021, rng.randint(1, 12), rng.randint(1, 28), rng.randint(0, 23), rng.randint(0, 59), rng.randint(0, 59),
+				                                            rng.choice([0, 0, 5, 123456, 999999]), tzinfo=tzs[case['tz']]),
+				                  extra={'note': rng.choice(AWK), 'n': rng.randint(0, 5), 'nested': {'a': [1, 2.5, None, True]}})
 			lines, pf = [], []
 			# ---- CSV --------------------------------------------------------------------------------
 			buf = io.StringIO(newline='')
-			CSVResultsExporter().export(buf, res)
+			csv_exp = CSVResultsExporter()
+			if case.get('other_exporters'):
+				# other exporter objects with other options exist and are used in the same process; this one keeps its own
+				for opts in (dict(delimiter='\t'), dict(quoting=csv.QUOTE_ALL, lineterminator='\r\n'), dict(delimiter=';', quotechar="'")):
+					CSVResultsExporter(**opts).export(io.StringIO(newline=''), res)
+				JSONResultsExporter(pretty=True).export(io.StringIO(), res)
+			csv_exp.export(buf, res)
 			text = buf.getvalue()
 			header = ['query', 'predicted.name', 'predicted.rank', 'predicted.ncbi_id', 'predicted.threshold', 'closest.distance', 'closest.description',
 			          'next.name', 'next.rank', 'next.ncbi_id', 'next.threshold']
@@ -114,6 +129,21 @@ def check(ctx, case):
 			py = list(csv.reader(io.StringIO(text, newline='')))
 			strs = lambda l: ';'.join(hx(str(x).encode('utf-8')) for x in l) if l else '_'
 			lines.append(f'c11.csv {"|".join(strs(r) for r in rows)} {hx(text.encode("utf-8"))} {"|".join(strs(r) for r in py)}')
+			if case.get('to_path'):
+				# the same export written to a path instead of an open stream: the file, read as UTF-8 CSV, carries the same rows
+				pcsv = sc.path('out.csv')
+				csv_exp.export(pcsv if case['to_path'] == 'path' else str(pcsv), res)
+				ftext = pcsv.read_bytes().decode('utf-8')
+				fpy = list(csv.reader(io.StringIO(ftext, newline='')))
+				lines.append(f'c11.csv {"|".join(strs(r) for r in rows)} {hx(ftext.encode("utf-8"))} {"|".join(strs(r) for r in fpy)}')
+				pjs = sc.path('out.json')
+				JSONResultsExporter().export(pjs if case['to_path'] == 'path' else str(pjs), res)
+				sbuf = io.StringIO(); JSONResultsExporter().export(sbuf, res)
+				try:
+					if json.loads(pjs.read_bytes().decode('utf-8')) != json.loads(sbuf.getvalue()):
+						pf.append('JSON export to a path differs from the export to a stream')
+				except Exception as e:
+					pf.append(f'JSON export to a path is not valid UTF-8 JSON: {e!r}')
 			# ---- JSON -------------------------------------------------------------------------------
 			buf = io.StringIO()
 			JSONResultsExporter().export(buf, res)
@@ -138,13 +168,16 @@ def check(ctx, case):
 			# ---- archive ----------------------------------------------------------------------------
 			p = sc.path('res.json')
 			ResultsArchiveWriter().export(p, res)
-			back = ResultsArchiveReader(db.session).read(p)
+			try:
+				back = ResultsArchiveReader(db.session).read(p)
+			except Exception as e:
+				return lines, pf + [f'archive cannot be read back: {exc_kind(e)}: {str(e)[:200]} (chunksize={res.params.chunksize!r}, tz={case.get("tz")})']
 			if not (back == res):
 				pf.append('archive read back is not equal (==) to the original results')
 
 			def proj(r):
 				out = {'params': [r.params.classify_strict, r.params.chunksize, r.params.report_closest], 'gset': r.genomeset.key,
-				       'version': r.gambit_version, 'ts': r.timestamp.isoformat(), 'extra': r.extra, 'meta': [r.signaturesmeta.id, r.signaturesmeta.id_attr], 'items': []}
+				       'version': r.gambit_version, 'ts': r.timestamp.isoformat(), 'utcoffset': str(r.timestamp.utcoffset()), 'extra': r.extra, 'meta': [r.signaturesmeta.id, r.signaturesmeta.id_attr], 'items': []}
 				for it in r.items:
 					cr = it.classifier_result
 					gm = lambda m: None if m is None else [m.genome.key, bits(m.distance), None if m.matched_taxon is None else m.matched_taxon.key]
@@ -226,4 +259,6 @@ def run(ctx):
 	for j in range(ctx.q(140, 1200)):
 		if not ctx.time_left(0.9):
 			break
-		sub({'seed': rng.randrange(10 ** 9), 'strict': rng.random() < 0.4, 'awkward': rng.random() < 0.85}, 'results')
+		sub({'seed': rng.randrange(10 ** 9), 'strict': rng.random() < 0.4, 'awkward': rng.random() < 0.85,
+		     'chunksize': rng.choice([1000, 1000, 1, 7, None]), 'tz': rng.choice([None, 'naive', 'utc', '+0530', '-0800']),
+		     'other_exporters': rng.random() < 0.4, 'to_path': rng.choice([None, 'path', 'str'])}, 'results')
